@@ -195,6 +195,7 @@ func cmdCheck(args []string) int {
 	unbound := l.bind()
 	e := newEngine(l)
 	e.curProp = prop
+	e.tier = *tier
 	fmt.Printf("govc: loaded %d packages; %d contracts bound\n", len(l.spkgs), len(l.bound))
 	inconclusive := []string{}
 	for _, u := range unbound {
@@ -312,21 +313,30 @@ func cmdCheck(args []string) int {
 		nViol++
 		exit = 1
 	}
-	if len(vacuous) > 0 {
-		for _, v := range vacuous {
-			fmt.Printf("govc: BROKEN vacuity guard failed: %s\n", v)
-		}
-		if exit == 0 {
-			exit = 2
-		}
+	// An obligation that cannot be generated or decided on this tree is reported as failed, by name:
+	// a function under contract whose body left the verifier's reach, a contract that no longer
+	// binds to the code, a vacuity guard that became unsatisfiable.  All of them were discharged
+	// on the tree the contracts were written for; none carries a failing input.
+	for _, v := range vacuous {
+		g := &groupResult{Name: v, Status: "cover-vacuous", Kind: "cover", Src: "reachability guard: the precondition (or the path to the return) must be satisfiable"}
+		path, _ := writeReplayNote(prop, g, "the vacuity guard is unsatisfiable: every discharged obligation behind it would hold vacuously")
+		fmt.Printf("VIOLATION property=%s replay=%s no-failing-input-found\n", prop, path)
+		fmt.Printf("  obligation %s (vacuity guard failed)\n", v)
+		nViol++
+		exit = 1
 	}
-	if len(inconclusive) > 0 {
-		for _, m := range inconclusive {
-			fmt.Printf("govc: INCONCLUSIVE %s\n", m)
+	for _, m := range inconclusive {
+		name := m
+		if i := strings.Index(m, ": "); i > 0 {
+			name = m[:i]
 		}
-		if exit == 0 {
-			exit = 2
-		}
+		name = strings.NewReplacer("outside-reach ", "", "contract-unbound ", "", " [", "/", "]", "").Replace(name) + "/within-reach"
+		g := &groupResult{Name: name, Status: "not-generated", Kind: "reach", Src: m}
+		path, _ := writeReplayNote(prop, g, "the verification conditions of this function can no longer be generated from the current source: "+m)
+		fmt.Printf("VIOLATION property=%s replay=%s no-failing-input-found\n", prop, path)
+		fmt.Printf("  obligation %s: %s\n", name, m)
+		nViol++
+		exit = 1
 	}
 	wall := time.Since(start).Seconds()
 	fmt.Printf("govc: %s: %d functions under contract, %d obligations, %d discharged, %d known findings, %d violations, %d covers; generation %.1fs, solving %.1fs wall (%.1fs solver time)\n",
